@@ -57,9 +57,15 @@ pub fn run(ctx: &mut Ctx) {
                 let tid = gen_tid(&mut rng);
                 let tlvs: Vec<Tlv> = (0..nord).map(|_| gen_ordinary_tlv(&mut rng, &tid)).collect();
                 let creds = gen_creds_small(&mut rng);
-                let g = GenMsg { class: rng.below(4) as u8, method: gen_method(&mut rng), tid, tlvs, seals: tail.clone(), creds: creds.clone() };
+                let g = GenMsg { class: if rng.chance(1, 2) { 0 } else { rng.below(4) as u8 }, method: gen_method(&mut rng), tid, tlvs, seals: tail.clone(), creds: creds.clone() };
                 let buf = build_msg(&g);
-                let o = Opts { creds: vec![creds.clone(), gen_creds_small(&mut rng)], police: vec![], deep: false, typed: false };
+                // policing too: nothing supported / the sealing types supported / a hidden type required
+                let o = Opts {
+                    creds: vec![creds.clone(), gen_creds_small(&mut rng)],
+                    police: if g.class == 0 { vec![(vec![], vec![]), (vec![MI, MI256, FP], vec![]), (vec![MI256], vec![MI]), (vec![MI], vec![MI256])] } else { vec![] },
+                    deep: false,
+                    typed: false,
+                };
                 let out = check_buffer(ctx, &buf, &o);
                 ctx.eval();
                 ctx.count(if out.impl_accepted { "tail-accepted" } else { "tail-rejected" });
@@ -166,6 +172,7 @@ pub fn run(ctx: &mut Ctx) {
     ctx.require("tail-rejected", 1_000);
     ctx.require("tail-replacement", 500);
     ctx.require("hmac-replays", 5_000);
+    ctx.require("policed-with-hidden-attributes", 500);
     ctx.require("validate-ok", 500);
 }
 
